@@ -220,6 +220,7 @@ def step (p : Pool) (op : Json) : Pool × Json :=
   else if o = "sq.setName" then withSq p op (fun s => ⟨{ s with name := fStr op "name" }, none⟩)
   else if o = "sq.check" then readSq p op (fun s => s.checkConsistency) (jExcept Json.bool)
   else if o = "sq.channels" then readSq p op (fun s => s.channels) (jExcept (jList jChan))
+  else if o = "sq.SR" then readSq p op (fun s => (s.specNum "SR").getD (-1)) (fun r => jOk (jRat r))
   else if o = "sq.points" then readSq p op (fun s => s.points) (jExcept jInt)
   else if o = "sq.duration" then readSq p op (fun s => s.duration) (jExcept jRat)
   else if o = "sq.desc" then
